@@ -108,6 +108,10 @@ theorem common_enforced (m : OvfMode) (common : List String) (c : Int) :
         | ok nrItems =>
           rw [hnr] at h
           simp only [Outcome.bind_ok] at h
+          by_cases hall : (!(common.all fun a =>
+              (unrevealedOf vc.schema vc.nonSchema vc.req.revealed).contains a)) = true
+          · rw [if_pos hall] at h; simp at h
+          rw [if_neg hall] at h
           cases hcp : commonPass common sp.eq seen common with
           | ok seen' =>
             rw [hcp] at h
@@ -168,6 +172,90 @@ theorem responses_equal_iff_values_equal (c mt v₁ v₂ : ℤ) (hc : c ≠ 0) :
     have : c * v₁ = c * v₂ := by omega
     exact mul_left_cancel₀ hc this
   · intro h; rw [h]
+
+/-- **the response is one of the exponents of the verification equation**: in an accepted
+proof every declared common attribute is an unrevealed attribute of the schema of EVERY
+credential — so its response is consumed by `calc_teq` of that sub-proof (the `unrevealed`
+list passed to `verifyPrimaryProof`), not a dummy entry of `eq_proof.m`.  False of the pinned
+tree: an entry copied into `eq_proof.m` for an attribute the schema lacks, or that the
+sub-proof reveals, passed (repaired aad0576). -/
+theorem common_is_hidden_exponent (m : OvfMode) (common : List String) (c : Int) :
+    ∀ (sps : List (SubProof G)) (vcs : List (VerCred G)) (seen : List (String × Int))
+      (items : List Item), sps.length = vcs.length →
+      verifyLoop m common c sps vcs seen = .ok items →
+      ∀ vc ∈ vcs, ∀ a ∈ common, a ∈ unrevealedOf vc.schema vc.nonSchema vc.req.revealed := by
+  intro sps
+  induction sps with
+  | nil =>
+    intro vcs seen items hl _ vc hvc
+    cases vcs with
+    | nil => simp at hvc
+    | cons _ _ => simp at hl
+  | cons sp sps ih =>
+    intro vcs seen items hl h
+    cases vcs with
+    | nil => simp at hl
+    | cons vc vcs =>
+      simp only [verifyLoop] at h
+      split at h
+      · simp at h
+      · cases hnr : (if (sp.hasNonRevoc && vc.hasRKey && vc.hasRegistry && vc.hasRegKey) = true
+            then sp.nrTaus else Outcome.ok []) with
+        | ok nrItems =>
+          rw [hnr] at h
+          simp only [Outcome.bind_ok] at h
+          by_cases hall : (!(common.all fun a =>
+              (unrevealedOf vc.schema vc.nonSchema vc.req.revealed).contains a)) = true
+          · rw [if_pos hall] at h; simp at h
+          rw [if_neg hall] at h
+          cases hcp : commonPass common sp.eq seen common with
+          | ok seen' =>
+            rw [hcp] at h
+            simp only [Outcome.bind_ok] at h
+            cases hvp : verifyPrimaryProof vc.o m vc.pk sp.eq sp.ne c
+                (unrevealedOf vc.schema vc.nonSchema vc.req.revealed) with
+            | ok ts =>
+              rw [hvp] at h
+              simp only [Outcome.bind_ok] at h
+              cases hrest : verifyLoop m common c sps vcs seen' with
+              | ok rest =>
+                intro vc' hvc' a ha
+                simp only [List.mem_cons] at hvc'
+                rcases hvc' with rfl | hvc'
+                · simp only [Bool.not_eq_true', Bool.not_eq_false, List.all_eq_true] at hall
+                  simpa using hall a ha
+                · exact ih vcs seen' rest (by simpa using hl) hrest vc' hvc' a ha
+              | err => rw [hrest] at h; simp at h
+              | panic => rw [hrest] at h; simp at h
+            | err => rw [hvp] at h; simp at h
+            | panic => rw [hvp] at h; simp at h
+          | err => rw [hcp] at h; simp at h
+          | panic => rw [hcp] at h; simp at h
+        | err => rw [hnr] at h; simp at h
+        | panic => rw [hnr] at h; simp at h
+
+/-- a dummy response is rejected: if the first credential's schema lacks a declared common
+attribute, or its sub-proof request reveals it, the loop does not succeed — whatever
+`eq_proof.m` contains -/
+theorem dummy_response_rejected (m : OvfMode) (common : List String) (c : Int)
+    (sp : SubProof G) (vc : VerCred G) (sps : List (SubProof G)) (vcs : List (VerCred G))
+    (seen : List (String × Int)) (a : String) (ha : a ∈ common)
+    (hno : a ∉ unrevealedOf vc.schema vc.nonSchema vc.req.revealed) (hl : sps.length = vcs.length) :
+    ∀ items, verifyLoop m common c (sp :: sps) (vc :: vcs) seen ≠ .ok items := by
+  intro items h
+  exact hno (common_is_hidden_exponent m common c (sp :: sps) (vc :: vcs) seen items
+    (by simp [hl]) h vc (by simp) a ha)
+
+/-- revealed ⇒ not hidden; absent from both schemas ⇒ not hidden -/
+theorem revealed_not_hidden (schema nonSchema revealed : List String) (a : String)
+    (h : a ∈ revealed) : a ∉ unrevealedOf schema nonSchema revealed := by
+  unfold unrevealedOf
+  simp [h]
+
+theorem absent_not_hidden (schema nonSchema revealed : List String) (a : String)
+    (h1 : a ∉ schema) (h2 : a ∉ nonSchema) : a ∉ unrevealedOf schema nonSchema revealed := by
+  unfold unrevealedOf
+  simp [h1, h2]
 
 /-! non-vacuity: a two-entry `seen` and a matching sub-proof map -/
 example : commonPass (G := ℤ) ["master_secret"] ⟨[], 0, 0, 0, [("master_secret", 42)], 0⟩ []
